@@ -52,7 +52,7 @@ def Ite(c, a, b):
 
 
 def is_symbolic(x):
-    return isinstance(x, (C.SymBool, C.SymInt, C.SymBytes, C.SymBitStr, C.AsciiText))
+    return isinstance(x, (C.SymBool, C.SymInt, C.SymBytes, C.SymBitStr, C.AsciiText, C.UniText))
 
 
 # ------------------------------------------------------------------------------- conversions used by oracles (both modes)
@@ -179,6 +179,25 @@ class SymCtx(BaseCtx):
         self.eng.add(b.bits.bv() & int('80' * n, 16) == 0)
         return C.AsciiText(b)
 
+    def unitext(self, name, classes, prefix=''):
+        """text of len(classes) characters whose UTF-8 encodings take classes[i] bytes (1, 2 or 3); every valid code point
+        of each class (shortest form, no surrogates); after a concrete ASCII prefix"""
+        if not classes:
+            return prefix
+        total = C.uni_layout(classes)
+        self.kinds[name] = ('uint', total)
+        v = self.eng.fresh_bv(name, total)
+        cps, off = [], total
+        for cls in classes:
+            w = C.UNI_PAYLOAD[cls]
+            cp = z3.Extract(off - 1, off - w, v)
+            off -= w
+            ok = C.uni_valid(cls, cp)
+            if ok is not True:
+                self.eng.add(ok)
+            cps.append((cls, cp))
+        return C.UniText.build([(1, ord(ch)) for ch in prefix] + cps)
+
     def zint(self, name, lo=None, hi=None):
         """mathematical-integer input (integer theory back-end); only for harnesses run with theory='int'"""
         from . import zint
@@ -297,6 +316,8 @@ def conc_value(v, model):
         return model.eval(v.bits.bv(), model_completion=True).as_long().to_bytes(n, 'big').hex()
     if isinstance(v, C.AsciiText):
         return bytes.fromhex(conc_value(v.b, model)).decode('latin1')
+    if isinstance(v, C.UniText):
+        return bytes.fromhex(conc_value(v.b, model)).decode('utf-8', 'replace')
     if isinstance(v, C.SymBitStr):
         n = len(v)
         return format(model.eval(v.bits.bv(), model_completion=True).as_long(), '0%db' % n)
@@ -362,6 +383,21 @@ class ConcCtx(BaseCtx):
 
     def ascii(self, name, n):
         return bytes(x & 0x7f for x in self.bytes_(name, n)).decode('ascii')
+
+    def unitext(self, name, classes, prefix=''):
+        if not classes:
+            return prefix
+        total = C.uni_layout(classes)
+        v = self._get(name) & ((1 << total) - 1)
+        out, off = [], total
+        for cls in classes:
+            w = C.UNI_PAYLOAD[cls]
+            cp = (v >> (off - w)) & ((1 << w) - 1)
+            off -= w
+            if not C.uni_valid(cls, cp):
+                raise C.PathInfeasible('code point outside its UTF-8 length class in concrete run')
+            out.append(chr(cp))
+        return prefix + ''.join(out)
 
     def zint(self, name, lo=None, hi=None):
         return self._get(name)
